@@ -105,7 +105,14 @@ class CSSParser:
         return style
 
     def parseString(
-        self, cssText, encoding=None, href=None, media=None, title=None, validate=None
+        self,
+        cssText,
+        encoding=None,
+        href=None,
+        media=None,
+        title=None,
+        validate=None,
+        _detectedEncoding=None,
     ):
         """Parse `cssText` as :class:`~cssutils.css.CSSStyleSheet`.
         Errors may be raised (e.g. UnicodeDecodeError).
@@ -153,6 +160,7 @@ class CSSParser:
             sheet._setCssTextWithEncodingOverride(
                 self.__tokenizer.tokenize(cssText, fullsheet=True),
                 encodingOverride=encoding,
+                encoding=_detectedEncoding,
             )
         finally:
             self.__parseSetting(False)
@@ -214,18 +222,26 @@ class CSSParser:
         encoding, enctype, text = cssutils.util._readUrl(
             href, fetcher=self.__fetcher, overrideEncoding=encoding
         )
-        if enctype == 5:
-            # do not use if defaulting to UTF-8
-            encoding = None
+        override, detected = None, None
+        if enctype == 0:
+            # only an explicitly given encoding overrides the encoding of
+            # imported sheets, too
+            override = encoding
+        elif enctype != 5:
+            # (do not use if defaulting to UTF-8)
+            # HTTP, BOM or @charset: encoding of this sheet only, imported
+            # sheets without own information inherit it
+            detected = encoding
 
         if text is not None:
             return self.parseString(
                 text,
-                encoding=encoding,
+                encoding=override,
                 href=href,
                 media=media,
                 title=title,
                 validate=validate,
+                _detectedEncoding=detected,
             )
 
     def setFetcher(self, fetcher=None):
